@@ -1446,12 +1446,18 @@ func (p *PikeVM) addThread(t thread, haystack []byte, pos int) {
 		// For alternation: left=first alt, right=second alt → first alt explored first
 		left, right := state.Split()
 
+		// Take the right branch's reference BEFORE exploring the left branch: with a
+		// single reference the left branch would update capture slots in place, and
+		// the right branch would then start from the left branch's captures.
+		var rightCaps cowCaptures
+		if right != InvalidState {
+			rightCaps = t.captures.clone()
+		}
 		if left != InvalidState {
 			p.addThread(thread{state: left, startPos: t.startPos, captures: t.captures}, haystack, pos)
 		}
 		if right != InvalidState {
-			// Clone captures for right branch to ensure COW works properly.
-			p.addThread(thread{state: right, startPos: t.startPos, captures: t.captures.clone()}, haystack, pos)
+			p.addThread(thread{state: right, startPos: t.startPos, captures: rightCaps}, haystack, pos)
 		}
 
 	case StateCapture:
@@ -1549,11 +1555,16 @@ func (p *PikeVM) addThreadToNext(t thread, haystack []byte, pos int) {
 	case StateSplit:
 		left, right := state.Split()
 
+		// reference for the right branch first, see addThread
+		var rightCaps cowCaptures
+		if right != InvalidState {
+			rightCaps = t.captures.clone()
+		}
 		if left != InvalidState {
 			p.addThreadToNext(thread{state: left, startPos: t.startPos, captures: t.captures}, haystack, pos)
 		}
 		if right != InvalidState {
-			p.addThreadToNext(thread{state: right, startPos: t.startPos, captures: t.captures.clone()}, haystack, pos)
+			p.addThreadToNext(thread{state: right, startPos: t.startPos, captures: rightCaps}, haystack, pos)
 		}
 		return
 
